@@ -92,7 +92,7 @@ PROPS = {
         Q=True,
         H=['c16'],
         I=['c'],
-        K=dict(quick=['c09_nonint_n2'], thorough=['c09_nonint_n4', 'c09_nonint_n3']),
+        K=dict(quick=['c09_nonint_n3_k0', 'c09_nonint_n3_k1', 'c09_nonint_n3_k2', 'c09_nonint_n3_k3'], thorough=['c09_nonint_n4', 'c09_nonint_n3']),
         S=dict(quick=[], thorough=['s_reads_client', 's_reads_snapdata', 's_reads_byparent', 's_reads_byid', 's_writes_newclient', 's_writes_snapshot', 's_writes_addversion']),
         bounds='two clients, one arbitrary request each, chain <= 4 (7); ids quoted by one client may be any id of the other',
     ),
